@@ -5,9 +5,9 @@ from concurrent.futures import ThreadPoolExecutor
 from . import common as C
 from . import servelayer as L
 
-PROPS = ("C14", "C15", "C16", "C17")
+PROPS = ("C14", "C15", "C16", "C17", "C18", "C19")
 PROFILES = {"C14": ["mixed", "history", "ttl"], "C15": ["mixed", "ttl", "history"], "C16": ["mixed", "restart", "history"],
-            "C17": ["restart", "mixed"]}
+            "C17": ["restart", "mixed", "services", "cmd"], "C18": ["gen", "gen", "services"], "C19": ["cmd", "cmd", "services"]}
 
 
 def signature_of(sc, item):
